@@ -69,7 +69,7 @@ def run_replay(prop, ob, replay_spec):
     try:
         p = subprocess.run([VENV_PY, os.path.join(VERIF, 'replay', 'run.py'), path],
                            capture_output=True, text=True, timeout=600,
-                           env=dict(os.environ, PYTHONPATH='/repo'))
+                           env=dict(os.environ, PYTHONPATH=os.environ.get('PYVC_REPO', '/repo')))
         out = (p.stdout + p.stderr)[-4000:]
         confirmed = p.returncode == 1
         if p.returncode not in (0, 1):
@@ -95,7 +95,7 @@ def main(argv=None):
     prop = a.prop.upper()
     if a.replay:
         p = subprocess.run([VENV_PY, os.path.join(VERIF, 'replay', 'run.py'), a.replay],
-                           env=dict(os.environ, PYTHONPATH='/repo'))
+                           env=dict(os.environ, PYTHONPATH=os.environ.get('PYVC_REPO', '/repo')))
         return p.returncode
     t0 = time.time()
     seed = int(os.environ.get('VERIF_SEED', '0') or 0)
